@@ -152,6 +152,8 @@ class PaneBase:
                    handlers: ConverterHandlers) -> Converter[PaneBaseT]:
         if len(args) > 0:
             cls = t.cast(t.Type[PaneBaseT], cls[tuple(args)])  # type: ignore
+        if not hasattr(cls, PANE_INFO):
+            raise TypeError(f"'{cls.__name__}' is not a pane dataclass (only subclasses of 'PaneBase' are)")
         return PaneConverter(cls, handlers=handlers)
 
     @classmethod
